@@ -13,7 +13,9 @@ import jax.numpy as jnp  # noqa: E402
 import probdiffeq  # noqa: E402
 from probdiffeq import ivpsolve  # noqa: E402
 
-assert probdiffeq.__file__.startswith("/repo/"), probdiffeq.__file__
+import os as _os
+
+assert probdiffeq.__file__.startswith(_os.environ.get("VERIF_REPO", "/repo") + "/"), probdiffeq.__file__
 
 
 def F(x):
